@@ -298,6 +298,27 @@ class Crate:
         self.wr(rel, s[:m.start()] + head2.rstrip() + '\n' + spec.rstrip() + '\n        {' + body_pre + s[lb + 1:])
         self.log.append(('loop', rel, '%s#%d' % (name, k_loop)))
 
+    def sum_loop(self, rel, ctx, name, invariant, body_pre='', body_post='', nth=0):
+        """R11: `RECV.iter().map(|V| EXPR).sum::<usize>()` (or `.sum()`) -> the left fold it denotes:
+        `{ let mut vx_sum: usize = 0; for V in vx_it: RECV.iter() <invariant> { vx_sum = vx_sum + (EXPR); } vx_sum }`.
+        (Iterator::sum over Map is fold(0, +); `+` panics on overflow exactly where sum would in a debug build and the
+        rewritten form carries an overflow obligation, so the wrapping release behaviour is excluded, not assumed.)"""
+        jb, be = self.body(rel, ctx, name, nth)
+        s = self.rd(rel)
+        m = re.compile(r'([A-Za-z_][\w\.]*?)\s*\.iter\(\)\s*\.map\(\|(\w+)\|\s*').search(s, jb, be)
+        if not m:
+            raise AnchorLost('%s: iter().map(..).sum() lost in %s' % (rel, name))
+        po = s.rfind('(', m.start(), m.end())
+        pc = match_close(s, po, '(', ')')
+        expr = s[m.end():pc - 1].strip()
+        m2 = re.compile(r'\s*\.sum(::<usize>)?\(\)').match(s, pc)
+        if not m2:
+            raise AnchorLost('%s: .sum() lost in %s' % (rel, name))
+        new = ('({ let mut vx_sum: usize = 0;\n            for %s in vx_it: %s.iter()\n%s\n            {%s vx_sum = vx_sum + (%s);%s }\n            vx_sum })'
+               % (m.group(2), m.group(1), invariant.rstrip(), body_pre, expr, body_post))
+        self.wr(rel, s[:m.start()] + new + s[m2.end():])
+        self.log.append(('rewrite', rel, 'R11 x1 (%s: iter().map(|%s| %s).sum() written as the fold it denotes)' % (name, m.group(2), expr)))
+
     def ghost(self, rel, ctx, name, stmt_text, ghost, where='before', nth=0, occurrence=0):
         """place ghost text before/after the statement (line) of fn that contains stmt_text"""
         jb, be = self.body(rel, ctx, name, nth)
